@@ -779,28 +779,92 @@ def np_mask(a, dt):
     return z
 
 
-def mk_plane(pl, L, lam):
+class MetaArr(np.ndarray):
+    """an ndarray subclass that only carries metadata"""
+    def __new__(cls, a, info='caller metadata'):
+        obj = np.asarray(a).view(cls)
+        obj.info = info
+        return obj
+
+    def __array_finalize__(self, obj):
+        self.info = getattr(obj, 'info', None)
+
+
+SUBFORMS = ['ma', 'ma_masked', 'matrix', 'meta', 'memmap']
+_MEMMAPS = []
+
+
+def subclass_form(a, form):
+    """the array a handed over as an instance of an ndarray subclass with the SAME data (legal array_like input of
+    the public API): the result must be the one for the plain ndarray"""
+    a = np.asarray(a)
+    if form is None or a.ndim == 0:
+        return a
+    if form == 'ma':
+        return np.ma.MaskedArray(a.copy())
+    if form == 'ma_masked':
+        mask = np.fromfunction(lambda *ix: (sum(ix) % 2) == 0, a.shape)      # flags about half of the samples
+        return np.ma.MaskedArray(a.copy(), mask=mask)
+    if form == 'matrix':
+        return np.matrix(a.copy()) if a.ndim == 2 else a
+    if form == 'meta':
+        return MetaArr(a.copy())
+    if form == 'memmap':
+        import tempfile
+        f = tempfile.NamedTemporaryFile(prefix='lv-memmap-', suffix='.dat')
+        _MEMMAPS.append(f)
+        if len(_MEMMAPS) > 64:
+            _MEMMAPS.pop(0).close()
+        m = np.memmap(f.name, dtype=a.dtype, mode='w+', shape=a.shape)
+        m[...] = a
+        return m
+    raise ValueError(form)
+
+
+def plain(a):
+    """the sample values of an array of any subclass (masked arrays: the underlying data)"""
+    return np.array(np.ma.getdata(a), copy=True, subok=False)
+
+
+def mk_plane(pl, L, lam, keep=None):
+    """keep: a list that receives (name, object handed to lentil, copy of its values) for every array argument, so that
+    the caller's memory can be compared afterwards"""
     lentil = C.import_lentil()
     if pl['kind'] == 'Tilt':
-        return lentil.Tilt(x=float(F(pl['x'])), y=float(F(pl['y'])))
+        kw = {}
+        if pl.get('tamp') is not None:          # a tilt-type plane is a Plane: scalar amplitude / opd are legal kwargs
+            z = cnum(pl['tamp'])
+            kw['amplitude'] = z.real if z.imag == 0 else z
+        if pl.get('topd') is not None:
+            kw['opd'] = float(F(pl['topd']) * lam / L)
+        t = lentil.Tilt(x=float(F(pl['x'])), y=float(F(pl['y'])), **kw)
+        return t
     kw = {}
+    form = pl.get('aform')
+    fac = 2.0 ** (-pl['ascale']) if pl.get('ascale') else 1.0       # exact power-of-two scaling of the amplitude
     amp, opd, mk = pl['amp'], pl['opd'], pl['mask']
     if 'a' in amp:
-        kw['amplitude'] = np_attr(amp['a'])
+        kw['amplitude'] = subclass_form(np_attr(amp['a']) * fac, form)
     else:
-        z = cnum(amp['s'])
+        z = cnum(amp['s']) * fac
         kw['amplitude'] = z.real if z.imag == 0 else z
     if 'a' in opd:
-        kw['opd'] = np.array([[float(F(k) * lam / L) for k in row] for row in opd['a']], dtype=float)
+        kw['opd'] = subclass_form(np.array([[float(F(k) * lam / L) for k in row] for row in opd['a']], dtype=float), form)
     else:
         kw['opd'] = float(F(opd['s']) * lam / L)
     if mk is not None:
         if 's' in mk:
             kw['mask'] = cnum(mk['s']).real
         elif 'a' in mk:
-            kw['mask'] = np_mask(mk['a'], pl.get('mdtype', 'float'))
+            kw['mask'] = subclass_form(np_mask(mk['a'], pl.get('mdtype', 'float')), form)
         else:
-            kw['mask'] = np.array([np_mask(a, pl.get('mdtype', 'float')) for a in mk['c']])
+            kw['mask'] = subclass_form(np.array([np_mask(a, pl.get('mdtype', 'float')) for a in mk['c']]),
+                                       form if form != 'matrix' else None)
+    if keep is not None:
+        for name in ('amplitude', 'opd', 'mask'):
+            if isinstance(kw.get(name), np.ndarray):
+                keep.append((name, kw[name], plain(kw[name]),
+                             None if not isinstance(kw[name], np.ma.MaskedArray) else np.array(np.ma.getmaskarray(kw[name]))))
     kw['pixelscale'] = mk_pix(pl['pix'])
     if pl['kind'] == 'Pupil':
         kw['focal_length'] = None if pl['focal'] is None else float(F(pl['focal']))
@@ -810,6 +874,16 @@ def mk_plane(pl, L, lam):
     if pl['tilt']:
         p.tilt = [lentil.Tilt(x=float(F(a)), y=float(F(b))) for a, b in pl['tilt']]
     return p
+
+
+def memory_changed(keep):
+    """-> description of the first caller-owned array whose values (or mask flags) changed, else None"""
+    for name, obj, vals, flags in keep:
+        if not np.array_equal(plain(obj), vals):
+            return f'the caller\'s {name} array was modified'
+        if flags is not None and not np.array_equal(np.ma.getmaskarray(obj), flags):
+            return f'the mask flags of the caller\'s {name} masked array were modified'
+    return None
 
 
 def view(fn):
@@ -1230,3 +1304,24 @@ def oracle(c, impl):
                 if not close(got['arr'][i][j], val, max(ti, 1e-12)):
                     return f'insert[{i},{j}] = {got["arr"][i][j]}, expected out + weight*intensity = {val}'
     return None
+
+
+
+# ------------------------------------------------------------------ WP-T4: translation layer (source -> Gallina)
+# An ADDITIONAL tie (DESIGN 10.3): harness/gen_src.py (suite 'C07') translates the bookkeeping decisions of lentil/plane.py:Plane.multiply (_mul_pixelscale on rational pixel scales, the shape of the product)
+# from the CURRENT source text into coq/theories/Gen/PlaneMulSrc.v; Proofs/PlaneMulSrcP.v proves every translated term equal to the model for
+# all integers; Properties/C07Src.v states it.  Policy: a function the translator refuses is only reported; a
+# translated function whose equivalence lemma no longer compiles is compared with the model mirror on sampled points,
+# an exhaustive small box and random points - a found disagreement is a VIOLATION with that witness (replayable: op
+# 'src'), none found is reported as unproved.  The build of C07Src happens here, never in COQ_TARGETS.
+def extra(tier, rng):
+    from .. import gen_src as G
+    return G.run_layer('C07', ID, tier, rng, C)
+
+
+def _wrap_src_replay():
+    from .. import gen_src as G
+    return G.wrap_replay(run_impl, oracle, C)
+
+
+run_impl, oracle = _wrap_src_replay()
